@@ -618,7 +618,18 @@ fn judge(out: &Value, allowed: &[Value], must_be: Option<&Value>) -> Result<(), 
     }
     let st = &out["ok"];
     if let Some(m) = must_be { return if st == m { Ok(()) } else { Err(format!("reopened content differs from what was synced: got {} want {}", brief(st), brief(m))) }; }
-    if allowed.iter().any(|a| a == st) { Ok(()) } else { Err(format!("reopened state never existed at an earlier point of the history: {}", brief(st))) }
+    if allowed.iter().any(|a| a == st) { Ok(()) } else { Err(format!("reopened state never existed at an earlier point of the history: {}{}", brief(st), allowed.last().map(|a| diff_hint(st, a)).unwrap_or_default())) }
+}
+/// where a reopened state first differs from the latest allowed one (diagnostics only)
+fn diff_hint(got: &Value, want: &Value) -> String {
+    for key in ["values", "elems", "records"] {
+        if let (Some(g), Some(w)) = (got.get(key).and_then(|x| x.as_array()), want.get(key).and_then(|x| x.as_array())) {
+            let i = (0..g.len().min(w.len())).find(|&i| g[i] != w[i]).unwrap_or(g.len().min(w.len()));
+            return format!(" [{}: {} entries, latest state has {}; first difference at index {}: {} vs {}]", key, g.len(), w.len(), i,
+                           g.get(i).map(|x| brief(x)).unwrap_or("-".into()), w.get(i).map(|x| brief(x)).unwrap_or("-".into()));
+        }
+    }
+    String::new()
 }
 fn brief(v: &Value) -> String { let s = v.to_string(); if s.len() > 300 { format!("{}...", &s[..300]) } else { s } }
 
@@ -634,6 +645,7 @@ fn judge_trace(cx: &mut Ctx, cell: &str, rkey: &str, class_of: &dyn Fn(&Value, &
     let extra_pts = if cx.thorough { 24 } else { 6 };
     let imgs = crash_images(&init, ops, byte_marks, r, exhaustive, extra_pts);
     cx.sum.dist_max("max_trace_ops", ops.len() as u64);
+    if std::env::var("ZV_C19_DEBUG").is_ok() { eprintln!("trace: {}", serde_json::to_string(&ops.iter().map(op_brief).collect::<Vec<_>>()).unwrap_or_default()); }
     for im in imgs {
         // history op in progress at the crash
         let i = marks.iter().position(|&m| if im.torn { m > im.when } else { m >= im.when }).unwrap_or(marks.len().saturating_sub(1));
@@ -745,6 +757,7 @@ fn protocol_case(cx: &mut Ctx, seg: &[Op], main: &str, what: &str) {
 // ------------------------------------------------------------------ MmapVec
 // op codes: 0 push v | 1 pop | 2 set i v | 3 truncate n | 4 clear | 5 reserve n | 6 shrink_to_fit | 7 resize n v
 //           8 extend count start | 9 push_bulk count start | 10 sync | 11 sync, drop, open again
+//           12 copy_from_simd count start (the source vector holds start, start+1, ... and lives outside the traced directory)
 fn mv_state(sh: &[u64]) -> Value { json!({"len": sh.len(), "elems": sh}) }
 
 fn mv_case<T: El>(cx: &mut Ctx, ic: usize, growth: f64, sow: bool, ops: &[Vec<u64>], exhaustive: bool) {
@@ -755,6 +768,7 @@ fn mv_case<T: El>(cx: &mut Ctx, ic: usize, growth: f64, sow: bool, ops: &[Vec<u6
     let mut r = Rng::new(fnv64(cj.to_string().as_bytes(), 7));
     let dir = cx.fresh_dir("mv");
     let path = format!("{}/v.bin", dir);
+    let src_path = format!("{}/mvsrc{}.bin", cx.root, cx.seq);
     let mk = || { let mut c = MmapVecConfig::default(); c.initial_capacity = ic; c.growth_factor = growth; c.sync_on_write = sow; c };
     let mask: u64 = if T::ES == 8 { u64::MAX } else { (1u64 << (T::ES * 8)) - 1 };
     let mut shadow: Vec<u64> = vec![];
@@ -788,6 +802,11 @@ fn mv_case<T: El>(cx: &mut Ctx, ic: usize, growth: f64, sow: bool, ops: &[Vec<u6
                 10 => { last_sync = Some(states.len()); let t0 = trace::len(); let r = v.sync().map_err(|e| e.to_string()); sync_segs.push((t0, trace::len())); r }
                 11 => { last_sync = Some(states.len());
                         match v.sync() { Err(e) => Err(e.to_string()), Ok(()) => { drop(v); match MmapVec::<T>::open(&path, mk()) { Ok(nv) => { v = nv; Ok(()) } Err(e) => { problem = Some(format!("op {}: open after sync failed: {}", k, e)); return; } } } } }
+                12 => { let it: Vec<T> = (0..a).map(|i| T::from(b.wrapping_add(i))).collect();
+                        let mut sc = MmapVecConfig::default(); sc.initial_capacity = (a as usize).max(1);
+                        let r = MmapVec::<T>::create(&src_path, sc).and_then(|mut src| { src.extend(it)?; v.copy_from_simd(&src) }).map_err(|e| e.to_string());
+                        let _ = std::fs::remove_file(&src_path);
+                        r.map(|_| { shadow.clear(); for i in 0..a { shadow.push(b.wrapping_add(i) & mask) } }) }
                 _ => Ok(()),
             };
             if let Err(e) = rr { problem = Some(format!("op {} {:?} failed: {}", k, op, e)); return; }
@@ -870,12 +889,32 @@ fn gen_mv(r: &mut Rng, big: bool) -> (usize, usize, f64, bool, Vec<Vec<u64>>) {
             12 => { ops.push(vec![6]); }
             13 => { let k = *r.pick(&[0u64, 1, 5, 40, 520]); let k = if big { k } else { k.min(len + 60) }; ops.push(vec![7, k, val(r)]); len = k; }
             14..=15 => { let c = *r.pick(&[1u64, 3, 9, 70, 300]); ops.push(vec![8, c, r.next()]); len += c; }
-            16 => { let c = *r.pick(&[1u64, 7, 8, 9, 64, 200]); ops.push(vec![9, c, r.next()]); len += c; }
+            16 => { if r.chance(1, 2) { let c = *r.pick(&[1u64, 7, 8, 9, 64, 200]); ops.push(vec![9, c, r.next()]); len += c; }
+                    else { let base = (ic as u64).max(1); let c = match r.below(7) { 0 => 0, 1 => 1, 2 => base, 3 => base * 3 / 2, 4 => base * 17 / 10 + 1, 5 => base * 2, _ => (base * 10).min(2500) };
+                           ops.push(vec![12, c, r.next()]); len = c; } }
             17..=18 => { ops.push(vec![10]); }
             _ => { ops.push(vec![11]); }
         }
     }
     if r.chance(9, 10) { ops.push(vec![10]); }
+    (es, ic, growth, sow, ops)
+}
+/// copy_from_simd into a destination that is not full (len < capacity), from sources of 1x .. 10x the capacity,
+/// then (optionally push / extend and) sync, reopen, read everything
+fn gen_mv_copy(r: &mut Rng, i: usize) -> (usize, usize, f64, bool, Vec<Vec<u64>>) {
+    let es = *r.pick(&[1usize, 2, 4, 8, 8]);
+    let ic = *r.pick(&[8usize, 8, 3, 16, 64, 100]);
+    let growth = *r.pick(&[1.0f64, 1.1, 1.5, 1.618, 1.618, 2.0]);
+    let sow = r.chance(1, 5);
+    let used = match r.below(4) { 0 => 0, 1 => 3.min(ic as u64 - 1), 2 => ic as u64 / 2, _ => ic as u64 - 1 };
+    let mut ops: Vec<Vec<u64>> = vec![];
+    if used > 0 { if r.chance(1, 2) { ops.push(vec![8, used, r.next()]); } else { for _ in 0..used { ops.push(vec![0, 1 + r.below(250)]); } } }
+    let c = ic as u64;
+    let factor = [c, c * 3 / 2, c * 17 / 10 + 1, c * 2, c * 10, c * 10 + 1, c + 1][i % 7];
+    ops.push(vec![12, factor, r.next()]);
+    match r.below(4) { 0 => ops.push(vec![0, 1 + r.below(250)]), 1 => ops.push(vec![8, *r.pick(&[1u64, 3, 9, 70]), r.next()]), 2 => ops.push(vec![9, *r.pick(&[1u64, 8, 64]), r.next()]), _ => {} }
+    ops.push(vec![if r.chance(1, 2) { 10 } else { 11 }]);
+    if r.chance(1, 3) { ops.push(vec![0, 7]); ops.push(vec![10]); }
     (es, ic, growth, sow, ops)
 }
 fn run_mv(cx: &mut Ctx, es: usize, ic: usize, growth: f64, sow: bool, ops: &[Vec<u64>], exhaustive: bool) {
@@ -964,6 +1003,7 @@ fn reorder_case(cx: &mut Ctx, builds: &[Value], exhaustive: bool) {
     let mut problem: Option<String> = None;
     let mut refused = false;
     let mut last: (Vec<u64>, bool) = (vec![], false);
+    let mut build_segs: Vec<(usize, usize)> = vec![];
     trace::start(&dir);
     let res = guarded(|| {
         for (k, b) in builds.iter().enumerate() {
@@ -971,7 +1011,9 @@ fn reorder_case(cx: &mut Ctx, builds: &[Value], exhaustive: bool) {
             let neg = b["neg"].as_bool().unwrap_or(false);
             let mut bl = match ZReorderMapBuilder::new(&path, vals.len(), if neg { -1 } else { 1 }) { Ok(b) => b, Err(e) => { problem = Some(format!("build {}: new failed: {}", k, e)); return; } };
             for &v in &vals { if let Err(_) = bl.push(v as usize) { refused = true; return; } }
+            let t0 = build_segs.last().map(|s: &(usize, usize)| s.1).unwrap_or(0);
             if let Err(e) = bl.finish() { problem = Some(format!("build {}: finish failed: {}", k, e)); return; }
+            build_segs.push((t0, trace::len()));
             states.push(reorder_state(&vals)); marks.push(trace::len());
             last = (vals, neg);
         }
@@ -984,6 +1026,7 @@ fn reorder_case(cx: &mut Ctx, builds: &[Value], exhaustive: bool) {
     for op in &tr { apply(&mut sim, op); }
     if let Err(w) = tracer_in_sync(&dir, &sim) { panic!("C19 tracer out of sync with the file system:{}", w); }
     let none = |_: &Value, _: &str, _: &str| -> Option<&'static str> { None };
+    for (a, b) in &build_segs { if *b <= tr.len() && a < b { protocol_case(cx, &tr[*a..*b], "m.bin", "ZReorderMapBuilder::finish"); } }
     let fin_state = states.last().cloned();
     let fin = judge_trace(cx, cell, "reorder", &none, &cj, &json!({}), "m.bin", false, &tr, &marks, &states, fin_state.as_ref(), &[16, 21], &mut r, exhaustive, None);
     if let Some(f) = fin.as_ref().and_then(|d| d.get("m.bin")) {
@@ -1035,6 +1078,30 @@ fn gen_reorder(r: &mut Rng) -> Vec<Value> {
         out.push(json!({"values": vals, "neg": neg}));
     }
     out
+}
+
+/// many short runs: `target` bytes of records (5 bytes per single value, 6 per run of 2..127) so that the builder's
+/// 4096-byte write buffer is flushed once, twice, several times before finish(); `target` = 0: `n` random short runs
+fn gen_reorder_dense(r: &mut Rng, target: usize, n: usize) -> Vec<Value> {
+    let neg = r.chance(1, 3);
+    let top: u64 = 0x7FFFFFFFFF;
+    let mut vals: Vec<u64> = vec![];
+    // value blocks 1000 apart, so that no record continues the previous one
+    let mut blk: u64 = 1 + r.below(50);
+    let mut emit = |vals: &mut Vec<u64>, run: u64, r: &mut Rng| {
+        let start = match r.below(12) { 0 => top - 200 - r.below(3), _ => { blk += 1 + r.below(3); (blk * 1000) % (top - 5000) + 300 } };
+        for i in 0..run { vals.push(if neg { start - i } else { start + i }); }
+    };
+    if target > 0 {
+        // bytes = 5 * singles + 6 * pairs
+        let pairs = { let mut p = 0; while (target - 6 * p) % 5 != 0 { p += 1; } p };
+        let singles = (target - 6 * pairs) / 5;
+        let mut kinds: Vec<u64> = vec![1; singles]; for _ in 0..pairs { kinds.insert(r.below(kinds.len() as u64 + 1) as usize, 2 + r.below(3)); }
+        for k in kinds { emit(&mut vals, k, r); }
+    } else {
+        for _ in 0..n { let k = match r.below(6) { 0 => 2, 1 => 3, 2 => 128 + r.below(2), _ => 1 }; emit(&mut vals, k, r); }
+    }
+    vec![json!({"values": vals, "neg": neg})]
 }
 
 /// a file written once by `write` (traced) whose reopened logical state must be `state`
@@ -1234,6 +1301,20 @@ pub fn run(args: &Args) {
             let b = gen_reorder(&mut rng);
             if i == 0 { cx.sum.sample(json!({"reorder": b})); }
             reorder_case(&mut cx, &b, false);
+        }
+        // many short runs: one, two and several intermediate flushes of the builder's 4096-byte buffer, and record
+        // bytes landing on 4095/4096/4097/8191/8192/8193
+        for (i, t) in [4095usize, 4096, 4097, 4100, 8191, 8192, 8193, 4090 + 4100, 12288].iter().enumerate() {
+            if !args.thorough && i % 3 == (args.seed % 3) as usize && i >= 3 { continue; }
+            let b = gen_reorder_dense(&mut rng, *t, 0); reorder_case(&mut cx, &b, false);
+        }
+        for n in [830usize, 1300, 2000, 5000].iter().take(if args.thorough { 4 } else { 3 }) {
+            let extra = rng.below(40) as usize; let b = gen_reorder_dense(&mut rng, 0, *n + extra); reorder_case(&mut cx, &b, false);
+        }
+        if args.thorough { for _ in 0..10 { let n = rng.range(800, 5200) as usize; let b = gen_reorder_dense(&mut rng, 0, n); reorder_case(&mut cx, &b, false); } }
+        for i in 0..(24 * scale) {
+            let (es, ic, g, sow, ops) = gen_mv_copy(&mut rng, i as usize);
+            run_mv(&mut cx, es, ic, g, sow, &ops, false);
         }
         for i in 0..(40 * scale) {
             let o = gen_plain(&mut rng);
